@@ -310,9 +310,9 @@ def gen(chk, tier):
     # (a2) every interleaving of 1 tick x 2 requests (quick: capped per configuration)
     ex2 = []
     for n in range(1, 6):
-        for _ in range(1 if quick else 3):
+        for _ in range(1):
             progs = [["N%d" % dur_for_index(rng, HOUR, n, rng.range(0, max_index(n)))] for _ in range(2)]
-            _, scheds = enum_schedules(HOUR, n, 1, progs, "all", 1200 if quick else 300000)
+            _, scheds = enum_schedules(HOUR, n, 1, progs, "all", 1200 if quick else 250000)
             ex2 += [case_line(HOUR, n, 1, progs, s) for s in scheds]
     streams.append(("interleavings-1tick-x-2req", ex2))
     # (b) one schedule per (reachable model state, enabled thread) edge: 2-3 ticks x 2 requesters
@@ -328,7 +328,7 @@ def gen(chk, tier):
     streams.append(("state-edge-cover", ed))
     # (c) random bursty schedules: up to 3n ticks x up to 4 requesters x 1-3 ops (incl. out-of-range)
     rd = []
-    for _ in range(400 if quick else 8000):
+    for _ in range(1500 if quick else 20000):
         n = rng.range(1, 5)
         step = rng.choice([HOUR, HOUR, 60 * 10 ** 9, 2 ** 45 + 1])
         ticks = rng.range(1, 3 * n)
